@@ -158,4 +158,73 @@ theorem inv_run (ops : List Op) (s : S) (h : Inv s) : Inv (run s ops) := by
   | nil => exact h
   | cons op ops ih => exact ih _ (inv_step s op h)
 
+
+/-! ## how often an actor is named by a `Spawn` -/
+
+theorem spawnCount_append (i : Nat) (a b : List Ctl) : spawnCount i (a ++ b) = spawnCount i a + spawnCount i b := by
+  simp [spawnCount, List.countP_append]
+
+def all (s : S) : List Ctl := s.wire ++ pend s
+
+/-- 1 while the scan is still to come -/
+def un (b : Bool) : Nat := if b then 0 else 1
+
+theorem spawnCount_step (i : Nat) (s : S) (op : Op) :
+    spawnCount i (all (step s op)) + un (step s op).scanned ≤
+      spawnCount i (all s) + un s.scanned + (if op = .start i then 1 else 0) := by
+  cases op with
+  | start j =>
+    by_cases e : j = i
+    · subst e
+      cases hm : s.monitored <;>
+        simp [step, all, pend, hm, spawnCount_append, spawnCount, Evt.ctl, List.countP_cons] <;> omega
+    · have e2 : ¬ (i = j) := fun h => e h.symm
+      cases hm : s.monitored <;>
+        simp [step, all, pend, hm, spawnCount_append, spawnCount, Evt.ctl, List.countP_cons, e, e2]
+  | stop j =>
+    simp only [step]
+    split
+    · cases hm : s.monitored <;>
+        simp [all, pend, hm, spawnCount_append, spawnCount, Evt.ctl, List.countP_cons]
+    · simp
+  | monitor => simp [step, all, pend]
+  | scan =>
+    simp only [step]
+    split
+    · rename_i hc
+      simp only [Bool.and_eq_true, Bool.not_eq_true'] at hc
+      by_cases he : s.alive.isEmpty = true
+      · simp [all, pend, he, hc.2, un]
+      · simp only [all, pend, he, Bool.false_eq_true, ↓reduceIte, hc.2, spawnCount_append, un]
+        simp only [spawnCount, List.countP_cons, List.countP_nil]
+        split <;> simp <;> omega
+    · simp
+  | evt =>
+    simp only [step]
+    split
+    · rename_i hs
+      split
+      · simp
+      · rename_i e rest hq
+        simp [all, pend, hq, spawnCount_append, List.append_assoc, hs]
+    · simp
+
+theorem spawnCount_run (i : Nat) (ops : List Op) (s : S) :
+    spawnCount i (all (run s ops)) + un (run s ops).scanned ≤
+      spawnCount i (all s) + un s.scanned + ops.count (.start i) := by
+  induction ops generalizing s with
+  | nil => simp [run]
+  | cons op ops ih =>
+    have h1 := ih (step s op)
+    have h2 := spawnCount_step i s op
+    simp only [run, List.foldl_cons] at h1 ⊢
+    simp only [List.count_cons]
+    by_cases e : op = .start i
+    · simp only [e, ↓reduceIte, beq_self_eq_true] at h2 ⊢
+      rw [e] at h1
+      omega
+    · have e' : (op == Op.start i) = false := by simpa using e
+      simp only [e, ↓reduceIte, e', Bool.false_eq_true] at h2 ⊢
+      omega
+
 end SenderAdvert
